@@ -7,8 +7,10 @@ cd "$(dirname "$0")"
   echo "-Q theories MV"
   echo "-Q gen MVGen"
   echo "-arg -w -arg -notation-overridden,-deprecated-hint-without-locality,-deprecated-instance-without-locality,-deprecated-hint-rewrite-without-locality"
-  find theories gen -name '*.v' | LC_ALL=C sort
+  # Props/*.v are compiled by each check itself (coqc), so that a broken obligation is attributed to its property only
+  find theories gen -name '*.v' -not -path 'theories/Props/*' | LC_ALL=C sort
 } > _CoqProject.new
 if ! cmp -s _CoqProject.new _CoqProject; then mv _CoqProject.new _CoqProject; rm -f Makefile.coq Makefile.coq.conf; else rm _CoqProject.new; fi
 [ -f Makefile.coq ] || coq_makefile -f _CoqProject -o Makefile.coq >/dev/null
-timeout ${COQ_TIMEOUT:-3000} make -f Makefile.coq -j16 "$@"
+# -k: a broken proof in one property file must not stop the others from being checked
+timeout ${COQ_TIMEOUT:-3000} make -k -f Makefile.coq -j16 "$@"
